@@ -5,7 +5,14 @@ from props import arbiter, shutdown_real, reload_real
 
 
 def c03(ctx):
-    arbiter.CHECKS["C03"](ctx)
+    import os
+    # seeded random schedules of C03 also model the window between fork() and init_signals() in which a
+    # TERM / QUIT sent to a worker is swallowed (the master has to ask again)
+    os.environ["VERIF_BOOT_SWALLOW"] = "1"
+    try:
+        arbiter.CHECKS["C03"](ctx)
+    finally:
+        os.environ.pop("VERIF_BOOT_SWALLOW", None)
 
 
 def c04(ctx):
